@@ -208,6 +208,8 @@ func IniFinal(o *OptInfo, elems []interface{}) interface{} {
 		switch o.Kind {
 		case KBool:
 			return elems[len(elems)-1].(bool)
+		case KToggle:
+			return Toggle(elems[len(elems)-1].(bool))
 		case KBoolPtr:
 			b := elems[len(elems)-1].(bool)
 			return &b
